@@ -12,6 +12,7 @@ lines (TAB separated; <pat>/<old>/<new> may be '@' = the searched object itself;
   C07 replace     <cls> <data> <old> <new> <start> <end> <ba> <oba> <count> -> ok <n> <bits after> | err ValueError
 """
 from harness.common import *
+import itertools, signal
 
 FUNCTIONAL = True
 LEVEL_TEXT = ("Lean theorems, all data/pattern/start/end/count/bytealigned: the list programs standing for bitarray.search/find, bytes.find and tobytes "
@@ -63,12 +64,16 @@ def _fmt_pos(r):
 
 
 def _fmt_nats(l):
+    if l == "endless":
+        return "bad:endless"
     if not all(type(x) is int for x in l):
         return "bad:" + repr(l)
     return ",".join(map(str, l)) if l else "[]"
 
 
 def _fmt_chunks(l):
+    if l == "endless":
+        return "bad:endless"
     return ",".join(wire(c) for c in l) if l else "[]"
 
 
@@ -76,11 +81,40 @@ def _fmt_bool(b):
     return "True" if b is True else ("False" if b is False else "bad:" + repr(b))
 
 
+class _Hang(BaseException):
+    pass
+
+
+def _alarm(signum, frame):
+    raise _Hang()
+
+
+def _take(gen, data):
+    """list(gen), but never more than a search over `data` can yield (positions 0..len, pieces ≤ len+2): a generator
+    that does not stop is an observable ('bad:endless'), not a hang of the check."""
+    lim = len(data) + 3
+    l = list(itertools.islice(gen, lim))
+    return l if len(l) < lim else "endless"
+
+
 def _operand(field, s):
     return s if field == "@" else Bits(bin=unwire(field)) if unwire(field) else Bits()
 
 
 def execute(line):
+    """Run one case; a call that does not come back within 20 s is the observable `err Internal:Timeout`."""
+    old = signal.signal(signal.SIGALRM, _alarm)
+    signal.setitimer(signal.ITIMER_REAL, 20)
+    try:
+        return _execute(line)
+    except _Hang:
+        return "err Internal:Timeout", {}
+    finally:
+        signal.setitimer(signal.ITIMER_REAL, 0)
+        signal.signal(signal.SIGALRM, old)
+
+
+def _execute(line):
     f = line.split(SEP)
     op, cls, data = f[1], f[2], unwire(f[3])
     oba = False
@@ -103,14 +137,14 @@ def execute(line):
         elif op == "findall":
             p = _operand(f[4], s)
             a, b, ba, c = _opt(f[5]), _opt(f[6]), _ob(f[7]), _opt(f[9])
-            out = guarded(lambda: list(s.findall(p, a, b, c, ba)), _fmt_nats)
-            extra["again"] = guarded(lambda: list(s.findall(p, start=a, end=b, count=c, bytealigned=ba)), _fmt_nats)
+            out = guarded(lambda: _take(s.findall(p, a, b, c, ba), data), _fmt_nats)
+            extra["again"] = guarded(lambda: _take(s.findall(p, start=a, end=b, count=c, bytealigned=ba), data), _fmt_nats)
             extra["pat_after"] = wire(p)
         elif op == "split":
             p = _operand(f[4], s)
             a, b, ba, c = _opt(f[5]), _opt(f[6]), _ob(f[7]), _opt(f[9])
-            out = guarded(lambda: list(s.split(p, a, b, c, ba)), _fmt_chunks)
-            extra["again"] = guarded(lambda: list(s.split(p, start=a, end=b, count=c, bytealigned=ba)), _fmt_chunks)
+            out = guarded(lambda: _take(s.split(p, a, b, c, ba), data), _fmt_chunks)
+            extra["again"] = guarded(lambda: _take(s.split(p, start=a, end=b, count=c, bytealigned=ba), data), _fmt_chunks)
             extra["pat_after"] = wire(p)
         elif op == "in":
             p = _operand(f[4], s)
@@ -128,7 +162,7 @@ def execute(line):
             extra["again"] = guarded(lambda: s.count(1 if v else 0), str)
         elif op == "cut":
             n, a, b, c = int(f[4]), _opt(f[5]), _opt(f[6]), _opt(f[7])
-            out = guarded(lambda: list(s.cut(n, a, b, c)), _fmt_chunks)
+            out = guarded(lambda: _take(s.cut(n, a, b, c), data), _fmt_chunks)
         elif op == "replace":
             old = _operand(f[4], s)
             new = _operand(f[5], s)
@@ -473,7 +507,7 @@ def gen(rng, tier):
             p = "@" if rng.random() < 0.01 else pat
             yield _one(rng, op, cls, data, p, a, b, rng.choice(BA), rng.choice(OBA), _count(rng))
     # 6. long data (crossing 8192) — sparse matches so that the outputs stay small
-    for n in [8191, 8192, 8193, 20000] * (6 if big else 1):
+    for n in [8191, 8192, 8193, 16385, 20000] * (6 if big else 1):
         for m in [8, 16, 17, 24]:
             pat = format(rng.getrandbits(m) | 1 << (m - 1) | 1, "0%db" % m)
             base = format(rng.getrandbits(n), "0%db" % n) if rng.random() < 0.6 else "0" * n
@@ -484,6 +518,17 @@ def gen(rng, tier):
                 a, b = rng.choice([(None, None), (None, None), (rng.randint(0, 8200), None), (None, -rng.randint(1, 9)),
                                    (8185, None), (None, 8192), (8192, None), (rng.randint(0, n // 2), rng.randint(n // 2, n))])
                 yield _one(rng, op, rng.choice(CLASS_NAMES), data, pat, a, b, rng.choice(BA), rng.choice(OBA), rng.choice([None, None, 1, 2, 5]))
+        # a single occurrence far from the end the search starts at (first / last bits of long data)
+        for m in [1, 8, 9, 16]:
+            pat = "1" * m
+            for p in [0, 1, 7, 8, 9, n - m, n - m - 1, ((n - m) // 8) * 8, rng.randrange(0, 64), n - m - rng.randrange(0, 64)]:
+                data = _plant(rng, "0" * n, pat, [p])
+                op = rng.choice(["find", "rfind", "rfind", "findall", "split", "in", "replace"])
+                a, b = rng.choice([(None, None), (None, None), (rng.randint(0, 9), None), (None, -rng.randint(1, 9)), (p, p + m), (max(0, p - 1), min(n, p + m + 1))])
+                yield _one(rng, op, rng.choice(CLASS_NAMES), data, pat, a, b, rng.choice(BA), rng.choice(OBA), rng.choice([None, 1, 2]))
+                far = "rfind" if p < n // 2 else "find"
+                yield _line(far, rng.choice(CLASS_NAMES), data, pat, None, None, "False", rng.choice(OBA))
+                yield _line(far, rng.choice(CLASS_NAMES), data, pat, None, None, "True", rng.choice(OBA))
         data = rand_bits(rng, n)
         yield _line("findall", "Bits", data, "1", rng.randint(0, n - 100), None, "None", "False", 5)
         yield _line("findall", "Bits", data, data[8000:8016], None, None, "True", "False", 7)
